@@ -24,3 +24,4 @@ def run(prog, rep):
     _ro2.run_identity(prog, rep)
     from ..rules import r_safe as _rsn
     _rsn.run_namebuf(prog, rep)
+    _ro2.run_lookup_via(prog, rep)
